@@ -30,7 +30,7 @@ def make_pair():
     return loop, api, proto, w
 
 
-def split_message(rng, header, data, seq0=0, drop_last=False, own_tx=False):
+def split_message(rng, header, data, seq0=0, drop_last=False, own_tx=False, fixed_cuts=None):
     """Wire bytes of the message as link-layer fragments with random sizes."""
     ser = int(header).to_bytes(4, "little") + bytes(data)
     if own_tx:
@@ -47,6 +47,8 @@ def split_message(rng, header, data, seq0=0, drop_last=False, own_tx=False):
         return out[:-1] if drop_last and len(out) > 1 else out
     k = rng.choice([1, 2, 2, 3, 4]) if len(ser) > 8 else 1
     cuts = sorted(set([rng.randrange(4, len(ser)) for _ in range(k - 1)])) if len(ser) > 5 else []
+    if fixed_cuts is not None:
+        cuts = [x for x in fixed_cuts if 4 <= x < len(ser)]
     pts = [0] + cuts + [len(ser)]
     pieces = [ser[a:b] for a, b in zip(pts, pts[1:])]
     out = []
@@ -115,6 +117,21 @@ def run(chk):
         cuts = sorted(set(rng.randrange(1, max(2, len(stream))) for _ in range(rng.randrange(0, 4))))
         scen.append((stream, cuts, [(cls, kw, cmd)], len(frs)))
         chk.count("own_tx_boundary_lengths")
+    # very large fragments (the link format allows 16-bit lengths; nothing limits an incoming fragment to the 247 bytes
+    # the host's own transmitter uses): lengths around 4096 and above
+    for cutlist in ([100, 4189, 8277], [4], [5000, 5247, 5494], [4088 + 4, 8180], [4089 + 4]):
+        cls = c.APS.DataIndication.Ind
+        kw = W.gen_assignment(rng, cls)
+        kw["Payload"] = type(kw["Payload"])([rng.randrange(256) for _ in range(9000)])
+        if "DataLength" in kw:
+            kw["DataLength"] = type(kw["DataLength"])(9000)
+        cmd = cls(**kw)
+        body = bytes(cmd.to_frame().hl_packet.data)
+        frs = split_message(rng, int(cls.header), body, rng.randrange(4), fixed_cuts=cutlist)
+        stream = b"".join(frs)
+        cuts = sorted(set(rng.randrange(1, len(stream)) for _ in range(rng.randrange(0, 3))))
+        scen.append((stream, cuts, [(cls, kw, cmd)], len(frs)))
+        chk.count("huge_fragment_messages")
     for _ in range(400 if thorough else 80):
         msgs = []
         stream = b""
